@@ -132,6 +132,9 @@ class Ctx:
     def cflags_of(self, cfg):
         bt, cflags, cargs = CONFIGS[cfg]
         fl = cflags.split()
+        # the library's own CMake always passes -fno-strict-aliasing and the belt code relies on it
+        # (octet[] accessed as word[]); harnesses that #include library .c files must be compiled alike
+        fl.append("-fno-strict-aliasing")
         if bt == "Release":
             fl = ["-O2", "-DNDEBUG"] + fl
         if "-DBUILD_FAST=ON" in cargs:
